@@ -947,6 +947,213 @@ def check_flag_streams(ctx, case=None, n_modes=None):
         v4.cleanup(x)
 
 
+# --------------------------------------------------------------------------- chunk infos with ALL their arrays
+
+ARR_CB = '1234567890'
+ARR_NAMES = ('correlator_data', 'flags', 'weights', 'weights_channel', 'extra')
+
+
+def gen_arrays_case(rng):
+    """Own chunk info + archived candidates, every array with its own shape / time chunks / prefix (or none)."""
+    def chunks_for(n):
+        out = []
+        while sum(out) < n:
+            out.append(rng.randint(1, max(1, n - sum(out))))
+        return out
+
+    def array(name, T, rest, p_prefix):
+        n = max(0, T + rng.choice([0, 0, 0, 1, -1, 2]))
+        return [name, [n] + list(rest), chunks_for(n), int(rng.random() < p_prefix)]
+    F, B = rng.choice([4, 6]), rng.choice([3, 12])
+    rests = {'correlator_data': [F, B], 'flags': [F, B], 'weights': [F, B], 'weights_channel': [F], 'extra': [2]}
+    T = rng.randint(1, 5)
+    p_own = rng.choice([1.0, 1.0, 0.5, 0.0])
+    own = [array(n, T if rng.random() < 0.8 else T + 1, rests[n], p_own) for n in ARR_NAMES[:4]]
+    if rng.random() < 0.1:
+        own = [a for a in own if a[0] != rng.choice(['weights', 'weights_channel'])]
+    cands = []
+    for i in range(rng.randint(0, 3)):
+        Tc = max(0, T + rng.choice([0, 0, 1, -1, 3]))
+        names = rng.choice([['flags'], ['flags'], ['flags', 'weights'], ['weights', 'flags', 'extra'], ['extra'],
+                            ['flags', 'weights', 'weights_channel', 'correlator_data'], []])
+        p_c = rng.choice([1.0, 0.5, 0.0])
+        info = []
+        for n in names:
+            rest = list(rests[n])
+            r = rng.random()
+            if r < 0.07 and rest:
+                rest[0] += 2                               # first non-dump axis (channel) differs
+            elif r < 0.14 and len(rest) > 1:
+                rest[1] = 8                                # baseline axis only
+            elif r < 0.17:
+                rest = rest[:-1] if rng.random() < 0.5 else rest + [2]      # another number of axes
+            info.append(array(n, Tc, rest, p_c))
+        cands.append(dict(name='fl%d' % i, type=rng.choice(['sdp.flags'] * 4 + ['sdp.vis', None]),
+                          src=rng.choice([['sdp_l0']] * 4 + [['other'], ['other', 'sdp_l0'], None]),
+                          info=info if rng.random() < 0.93 else None, chunk_name=int(rng.random() < 0.6)))
+    return dict(kind='arrays', upgrade=rng.choice([None, None, True, False]), own=own, own_name=int(rng.random() < 0.7),
+                cands=cands)
+
+
+def arrays_telstate(case):
+    ts = katsdptelstate.TelescopeState()
+    cb, stream = ARR_CB, 'sdp_l0'
+
+    def info_dict(arrays, origin, prefix):
+        out = {}
+        for name, shape, chunks, hp in arrays:
+            e = {'shape': tuple(shape), 'chunks': (tuple(chunks),) + tuple((n,) for n in shape[1:]), 'dtype': '|u1',
+                 'origin': origin}
+            if hp:
+                e['prefix'] = prefix
+            out[name] = e
+        return out
+    ts['capture_block_id'], ts['stream_name'] = cb, stream
+    ts['sdp_l0_stream_type'] = 'sdp.vis'
+    ts['sdp_l0_sync_time'], ts['sdp_l0_int_time'] = 1600000000.0, INT_TIME
+    ts[cb + '_sdp_l0_first_timestamp'] = 123.0
+    ts[cb + '_sdp_l0_chunk_info'] = info_dict(case['own'], 0, cb + '-sdp-l0')
+    if case['own_name']:
+        ts[cb + '_sdp_l0_chunk_name'] = 'name-own'
+    for i, c in enumerate(case['cands']):
+        if c['type'] is not None:
+            ts[c['name'] + '_stream_type'] = c['type']
+        if c['src'] is not None:
+            ts[c['name'] + '_src_streams'] = list(c['src'])
+        if c['info'] is not None:
+            ts['%s_%s_chunk_info' % (cb, c['name'])] = info_dict(c['info'], i + 1, '%s-%s' % (cb, c['name']))
+        if c['chunk_name']:
+            ts['%s_%s_chunk_name' % (cb, c['name'])] = 'name-' + c['name']
+    ts['sdp_archived_streams'] = ['sdp_l0'] + [c['name'] for c in case['cands']]
+    return ts
+
+
+def _entries(info):
+    return [[k, v.get('origin'), [int(n) for n in v['shape']], [int(n) for n in v['chunks'][0]], v.get('prefix')]
+            for k, v in info.items()]
+
+
+def spec_arrays(case, ts):
+    """The rule of the property, array by array, read from the telstate in the namespace order of the property."""
+    cb, stream = ARR_CB, 'sdp_l0'
+    l0 = spec_namespaces(ts, cb, stream)
+
+    def complete(info, spaces):
+        for e in info.values():
+            if 'prefix' not in e:
+                name = spec_get(ts, spaces, 'chunk_name')
+                if name is None:
+                    return None
+                e['prefix'] = name
+        return info
+    cur = complete(spec_get(ts, l0, 'chunk_info'), l0)
+    if cur is None:
+        return 'KeyError'
+    upgrade = True if case['upgrade'] is None else case['upgrade']
+    for a in (spec_get(ts, l0, 'sdp_archived_streams') or []) if upgrade else []:
+        spaces = spec_namespaces(ts, cb, a, base=l0)
+        if spec_get(ts, spaces, 'stream_type') != 'sdp.flags':
+            continue
+        src = spec_get(ts, spaces, 'src_streams')
+        if src is None:
+            return 'KeyError'
+        if stream not in src:
+            continue
+        info = spec_get(ts, spaces, 'chunk_info')
+        if info is None or complete(info, spaces) is None:
+            return 'KeyError'
+        # channel, baseline and any further axis of every offered array must be those of the array it replaces
+        if any(k in cur and tuple(e['shape'][1:]) != tuple(cur[k]['shape'][1:]) for k, e in info.items()):
+            return 'ValueError'
+        cur = dict(cur, **info)             # offered arrays replace (or are added last), the others stay
+    longest = max(e['shape'][0] for e in cur.values())
+    out = []
+    for k, o, shape, chunks, prefix in _entries(cur):
+        out.append([k, o, [longest] + shape[1:], chunks + [1] * (longest - shape[0]), prefix])
+    n_ts = longest if 'correlator_data' in cur else 'KeyError'
+    return [out, n_ts]
+
+
+def check_arrays(ctx, case=None):
+    from katdal.datasources import _align_chunk_info, _ensure_prefix_is_set, _upgrade_flags
+    case = case or gen_arrays_case(ctx.rng)
+    cb, stream = ARR_CB, 'sdp_l0'
+    ts = arrays_telstate(case)
+    kw = {} if case['upgrade'] is None else {'upgrade_flags': case['upgrade']}
+    view = view_l0_capture_stream(ts, cb, stream)[0]
+    # (a) the statements of TelstateDataSource.__init__ that prepare the chunk info (sequence pinned by item_open)
+    try:
+        ci = _ensure_prefix_is_set(view['chunk_info'], view)
+        if kw.get('upgrade_flags', True):
+            ci = _upgrade_flags(ci, view, cb, stream)
+        got = [_entries(_align_chunk_info(ci))]
+    except (KeyError, ValueError) as e:
+        got = type(e).__name__
+    # (b) the data source itself, metadata only: the number of synthesised timestamps
+    try:
+        src = TelstateDataSource(view, cb, stream, chunk_store=None, **kw)
+        n_ts = int(len(src.timestamps))
+        if not np.array_equal(src.timestamps, T0 + INT_TIME * np.arange(n_ts)):
+            n_ts = 'wrong_timestamps'
+    except (KeyError, ValueError) as e:
+        n_ts = type(e).__name__
+    if isinstance(got, list):
+        got.append(n_ts)
+    elif n_ts != got:
+        got = [got, n_ts]
+    exp = spec_arrays(case, ts)
+    if ctx.model_ok:
+        l0 = spec_namespaces(ts, cb, stream)
+        prefixes = []
+
+        def pid(name):
+            if name not in prefixes:
+                prefixes.append(name)
+            return prefixes.index(name)
+
+        def wdict(info):
+            return [[codes(k), e['origin'], [int(n) for n in e['shape']], [int(n) for n in e['chunks'][0]],
+                     [pid(e['prefix'])] if 'prefix' in e else []] for k, e in info.items()]
+
+        def optname(v):
+            return [] if v is None else [pid(v)]
+        archived = []
+        for a in spec_get(ts, l0, 'sdp_archived_streams') or []:
+            spaces = spec_namespaces(ts, cb, a, base=l0)
+            ty, sr, info = (spec_get(ts, spaces, k) for k in ('stream_type', 'src_streams', 'chunk_info'))
+            archived.append([[codes(ty)] if isinstance(ty, str) else [], [[codes(x) for x in sr]] if sr is not None else [],
+                             [wdict(info)] if info is not None else [], optname(spec_get(ts, spaces, 'chunk_name'))])
+        mo = ctx.model([[181, [1, int(kw.get('upgrade_flags', True)), codes(stream), wdict(spec_get(ts, l0, 'chunk_info')),
+                               optname(spec_get(ts, l0, 'chunk_name')), archived]]])[0]
+        if mo[0][0] == -1:
+            model = ERRS.get(mo[0][1], 'error%d' % mo[0][1])
+        else:
+            model = [[[''.join(map(chr, k)), o, sh, ch, prefixes[p[0]] if p else None] for k, o, sh, ch, p in mo[0][1]],
+                     mo[1][0] if mo[1] else 'KeyError']
+        if model != exp:
+            ctx.disagree('what=arrays_model_vs_spec', case, None, model, 'model of the chunk info preparation differs from the '
+                         'array-by-array rule', spec=exp)
+        if got != model:
+            ctx.disagree('what=arrays_tie', case, got, model, 'prepared chunk info differs from model', kind='tie')
+    if got != exp:
+        if isinstance(got, str) or isinstance(exp, str):
+            symptom = 'not_refused' if isinstance(exp, str) and not isinstance(got, str) else \
+                ('refused:%s' % got if isinstance(got, str) else 'mixed')
+        elif got[1] != exp[1]:
+            symptom = 'timestamps'
+        elif [e[0] for e in got[0]] != [e[0] for e in exp[0]]:
+            symptom = 'array_names'
+        else:
+            symptom = next((w for j, w in ((1, 'origin'), (2, 'shape'), (3, 'chunks'), (4, 'prefix'))
+                            if [e[j] for e in got[0]] != [e[j] for e in exp[0]]), 'other')
+        ctx.disagree('what=arrays;candidates=%d;symptom=%s' % (len(case['cands']), symptom), case, got, None,
+                     'arrays of the chunk info are not replaced / refused / extended array by array as documented', spec=exp)
+    ctx.traces_validated += 1
+    multi = any(c['info'] and len(c['info']) > 1 for c in case['cands'])
+    ctx.note_case(('arrays', repr(case)), nontrivial=bool(case['cands']), sample=case)
+    ctx.count('arrays:%s:%s' % ('multi' if multi else 'single', exp if isinstance(exp, str) else 'ok'))
+
+
 # --------------------------------------------------------------------------- _align_chunk_info on its own
 
 def check_align(ctx, arrays=None):
@@ -1023,6 +1230,8 @@ def run(ctx):
                                  attr_in=sorted(rng.sample(range(6), rng.randint(0, 3)))))
     for _ in range(ctx.scale(40, 400)):
         check_align(ctx)
+    for _ in range(ctx.scale(300, 3000)):
+        check_arrays(ctx)
     # capture block / stream named by file, URL query, keyword - through every entry point; unreadable sources
     x = build_ids_fixture(rng.randrange(1 << 30))
     try:
@@ -1081,6 +1290,8 @@ def replay(ctx, doc):
         check_placement(ctx, chain, [prefixes.index(p) for p in case['attr_in']], [prefixes.index(p) for p in case['sensor_in']])
     elif 'keys' in case:
         check_sensor_table(ctx, case)
+    elif case.get('kind') == 'arrays':
+        check_arrays(ctx, case)
     elif 'arrays' in case:
         check_align(ctx, case['arrays'])
     elif 'chain' in case:
